@@ -486,10 +486,8 @@ func (e *esdtNFTMultiTransfer) addNFTToDestination(
 		}
 	}
 	esdtDataToTransfer.Value.Add(esdtDataToTransfer.Value, currentESDTData.Value)
-	if esdtDataToTransfer.TokenMetaData == nil {
-		// the freeze flag belongs to the account, it does not travel with a fungible token
-		esdtDataToTransfer.Properties = currentESDTData.Properties
-	}
+	// the freeze flag belongs to the account's own entry, it does not travel with the token
+	esdtDataToTransfer.Properties = currentESDTData.Properties
 
 	_, err = saveESDTNFTToken(userAccount, esdtTokenKey, esdtDataToTransfer, e.marshalizer, e.pauseHandler, isReturnCallWithError)
 	if err != nil {
